@@ -65,7 +65,7 @@ _bb("C05", "exhaustive enumeration of the 1440-cell mode table x generated conte
     "Every combination of CI x Update option x UPDATE_SNAPS class x sort x entry point x entry state x obsolete items is executed (quick: once; thorough: three content seeds). Exhaustive over the table, sampled over values.")
 _bb("C08", "property-based testing (rapid) over generated test programs, skip sets and -run patterns, executed by the real test runner which reports which tests started; oracle = items of tests that did not run survive and are unlisted; known findings K2-K5 exempted by predicate and probed by minimal programs",
     "Generated-program search (prefix/substring-related names, nested subtests, shared/custom/standalone files, skips before/after calls, 25 -run shapes, report/clean x sort, stale prefix-siblings). Sampled; four root causes are recorded as known findings and still reported as KNOWN-FINDING lines.")
-_bb("C11", "property-based testing (rapid) over option sets, call shapes, packages and subtest names, each case executed eight times (normal / -trimpath build x package dir / foreign cwd x GOFLAGS variants incl. values that merely mention -trimpath); oracle = exact set of created files and entry ids equals the statement's path formula",
+_bb("C11", "property-based testing (rapid) over option sets, call shapes, packages and subtest names, each case executed nine times (normal / -trimpath build x package dir / foreign cwd x GOFLAGS variants incl. values that merely mention -trimpath, -test.count=2); oracle = exact set of created files and entry ids equals the statement's path formula",
     "Generated-input search over Dir/Filename/Ext/API x call shape (0-100 extra frames, non-test files, other package) x package depth x subtest names with '%', '/', spaces. Sampled; -trimpath only for cwd = package dir.")
 
 TEXT["C06"] = dict(
